@@ -281,6 +281,10 @@ def finish(res):
             new.append(v)
     for sig, (k, cnt) in kf.items():
         log(f"KNOWN-FINDING: property={res.pid} {k['what']} (signature {sig}, {cnt} occurrence(s) in this run)")
+    # replays of earlier runs of this property are stale
+    for old in os.listdir(os.path.join(VERIF, "replays")):
+        if old.startswith(res.pid + "-"):
+            os.remove(os.path.join(VERIF, "replays", old))
     rc = 0
     seen = set()
     for v in new:
